@@ -185,3 +185,47 @@ def make_grid(axis, origin: int, h, dimension: int = 1):
     from rpylib.grid.spatial import CTMCGrid
     arr = np.array([float(x) for x in axis])
     return CTMCGrid(h=float(h), origin_coordinate=origin, axes=[arr.copy() for _ in range(dimension)])
+
+
+# ------------------------------------------------------------------------------------ model specs (JSON-able, for replays)
+def real_model_specs(rng: random.Random):
+    """HEM, Merton, VG, CGMY (finite and infinite variation) with randomised parameters"""
+    u = rng.uniform
+    return [
+        {"family": "HEM", "kwargs": dict(sigma=u(0.05, 0.3), p=u(0.3, 0.7), eta1=u(15, 40), eta2=u(15, 50), intensity=u(1, 8))},
+        {"family": "MERTON", "kwargs": dict(sigma=u(0.05, 0.2), mu_j=u(-0.05, 0.05), sigma_j=u(0.03, 0.1), intensity=u(1, 8))},
+        {"family": "VG", "kwargs": dict(sigma=u(0.08, 0.3), nu=u(0.02, 0.3), theta=u(-0.2, 0.2))},
+        {"family": "CGMY", "kwargs": dict(c=u(0.05, 1.0), g=u(8, 20), m=u(8, 25), y=u(0.2, 0.8))},
+        {"family": "CGMY", "kwargs": dict(c=u(0.02, 0.2), g=u(8, 20), m=u(8, 25), y=u(1.1, 1.6))},
+    ]
+
+
+def step_spec(measure: StepMeasure, a=0.0, sigma=0.0, representation="CENTER"):
+    return {"family": "STEP", "breaks": [str(b) for b in measure.breaks], "dens": [str(d) for d in measure.dens],
+            "fv": measure.finite_variation, "strict": measure.strict, "a": str(Fraction(a)), "sigma": str(Fraction(sigma)),
+            "representation": representation}
+
+
+def build_model(spec: dict, exponential: bool = False, spot: float = 100.0, r: float = 0.03, d: float = 0.01):
+    if spec["family"] == "STEP":
+        nu = StepMeasure([Fraction(b) for b in spec["breaks"]], [Fraction(x) for x in spec["dens"]],
+                         finite_variation=spec.get("fv", True), strict=spec.get("strict", True))
+        m = StepModel(nu, a=float(Fraction(spec.get("a", "0"))), sigma=float(Fraction(spec.get("sigma", "0"))),
+                      representation=LevyRepresentation[spec.get("representation", "CENTER")])
+        if exponential:
+            from rpylib.model.levymodel.exponentialoflevymodel import ExponentialOfLevyModel
+            return ExponentialOfLevyModel(spot=spot, r=r, d=d, levy_model=m)
+        return m
+    from rpylib.model.utils import helper_model
+    mt = ModelType[spec["family"]]
+    if exponential:
+        return helper_model(mt, True)(spot=spot, r=r, d=d, **spec["kwargs"])
+    return helper_model(mt, False)(**spec["kwargs"])
+
+
+def build_copula_model(specs: list, copula: str = "independent", theta: float = 0.7, eta: float = 0.3):
+    from rpylib.model.levycopulamodel import LevyCopulaModel
+    from rpylib.distribution.levycopula import IndependentComponentsCopula, ClaytonCopula, DependentComponentsCopula
+    cop = {"independent": IndependentComponentsCopula, "dependent": DependentComponentsCopula}.get(copula)
+    cop = cop() if cop else ClaytonCopula(theta=theta, eta=eta)
+    return LevyCopulaModel([build_model(s) for s in specs], cop)
